@@ -42,7 +42,7 @@ class P(vlib.Prop):
     coq_targets = ["C20/Properties.vo", "C20/Witness.vo", "C20/Harness.vo"]
     properties_module = "C20.Properties"
     properties_file = "C20/Properties.v"
-    instance_obligations = ["state_codes_are_the_go_constants", "state_names_are_the_go_strings", "observed_state_is_the_stored_word", "collector_api_is_the_modelled_one"]
+    instance_obligations = ["state_codes_are_the_go_constants", "state_names_are_the_go_strings", "observed_state_is_the_stored_word", "collector_api_is_the_modelled_one", "fatal_forwarding_is_the_go_table"]
     harness_module = "C20.Harness"
     case_type = "(list ((nat * nat) * ((nat * nat) * list nat)) * (bool * (nat * nat))) * (list (nat * nat) * (list (nat * bool) * (list (nat * (nat * nat)) * nat)))"
     shard = 40
@@ -94,6 +94,24 @@ class P(vlib.Prop):
         # translator T1: State constants, State.String, Collector.GetState, method set of *Collector, re-read
         # from the current source on every run; coq/C20/Tie.v proves the model's definitions equal to them
         vlib.go2coq(ctx, "otelcol", os.path.join(vlib.VERIF, "props", "C20", "t1_spec.json"), "C20State")
+        # graph.Host.NotifyComponentStatusChange sends on a channel (outside T1's subset): its decision table
+        # "(status, has an error value) -> forwarded to asyncErrorChannel?" is dumped by RUNNING the current code on every
+        # event a component can build, and written to coq/Generated/C20Fatal.v (obligation in Tie.v)
+        h = vlib.Harness("fataltable", "service", "./internal/graph/", {"zz_verif_c20_table_test.go": "C20/fataltable_test.go"},
+                         "^TestVerifC20FatalTable$", "graph", timeout=600)
+        cases, _, _, err = vlib.run_harness(ctx, h, tier="quick")
+        ctx.harness_runs[-1]["role"] = "table dump for translate"
+        if err or len(cases) < 14:
+            raise vlib.Broken("table dump of Host.NotifyComponentStatusChange failed", err.detail if err else "too few points")
+        rows = sorted(set(c["term"] for c in cases))
+        text = ("(* GENERATED by props/C20/check.py (P.translate) by RUNNING graph.Host.NotifyComponentStatusChange of the current\n"
+                "   /repo working tree on every component status event that can be built - do not edit.\n"
+                "   ((status, event carries an error value), forwarded to the asynchronous error channel) *)\n"
+                "From Coq Require Import ZArith List Bool.\nImport ListNotations.\nLocal Open Scope Z_scope.\n\n"
+                "Definition fatal_forward_table : list ((Z * bool) * bool) :=\n  [ " + ";\n    ".join(rows) + " ].\n")
+        outp = os.path.join(vlib.COQ, "Generated", "C20Fatal.v")
+        if not os.path.exists(outp) or open(outp).read() != text:
+            open(outp, "w").write(text)
 
     _CLAUSES = {1: "one-live-service", 2: "component-shutdown-at-most-once", 3: "no-bringup-after-failed-shutdown",
                 4: "provider-shutdown-at-most-once", 5: "nothing-left-started-when-run-returns",
